@@ -4,10 +4,21 @@ PROP = dict(
     level="exploration",
     stages=[dict(name="c20_math", src="harness/c20_math.cc")],
     rule=("exhaustive small-scope enumeration (all pairs in [0,300]^2 and boundary pairs for gcd/reduce_fraction in 8 integer "
-          "types; every 8/16-bit value and every 2^k-1,2^k,2^k+1 for log2i, all 32-bit values in thorough; all Vector2/Vector3 pairs "
-          "over [-4,4]) plus rapidcheck-generated cases (boundary-biased operands, (lo,hi) ranges, random_data call sequences "
+          "types, plus the worst-case inputs of Euclid's algorithm: consecutive terms of every additive sequence x(n+1)=x(n)+x(n-1) with seeds "
+          "0<=x0<=x1<=6 (Fibonacci, Lucas, ...) up to the maximum of each of the 8 types x common factors 1,2,3,5,7, both operand orders - about "
+          "1.44*log2(max) division steps, the longest remainder sequences there are; every 8/16-bit value and every 2^k-1,2^k,2^k+1 for log2i, all 32-bit values in thorough; all Vector2/Vector3 pairs "
+          "over [-4,4]; the Vector2/3/4 laws are also instantiated for double - v2d: all pairs over {+0,-0,1,-1,0.5,2,+inf,-inf}, v3d: all pairs over "
+          "{+0,-0,1,-1.5}, v4d: all pairs over {+0,-0,1}, vtransd: all triples over {+0,-0,1,-1} / {+0,-0,1} - where == is the componentwise "
+          "IEEE == (+0 equals -0), operator< must be consistent with it, results are compared by value and NaN-aware (inf-inf), NaN operands are "
+          "outside the domain) plus rapidcheck-generated cases (boundary-biased operands, gcd pairs built backwards from (g,0) through a continued "
+          "fraction with partial quotients all 1 / mostly 1 / in 1..3 / small with a rare large one, carried to the type's maximum, (lo,hi) ranges, random_data call sequences "
           "incl. requests of 2^12..2^18 +-1 bytes, integer matrices in [-9,9], diagonally dominant double matrices at global scales "
           "2^-900..2^900 / 10^-270..10^270 - the residual M*inverse(M)-I is scale invariant, so the 1e-9 tolerance applies at every scale). "
+          "Double vectors: components from signed zeros, small dyadic values and infinities (all finite arithmetic exact), the second operand "
+          "fresh or the first one with the sign of some zeros flipped; every vector case (int64 and double) also checks, by the type's own == and <, "
+          "a-b == -(b-a), a+b == b+a and a*0 == b*0 where no result component is NaN. m4d: Matrix4<double> with entries in "
+          "{+-0, +-0.5, +-1, +-1.5, +-2, +-3, +-4} (exact arithmetic): == against the entrywise IEEE ==, product / matrix-vector product / "
+          "(AB)v = A(Bv) by value and by Vector4's own ==, A*I == A, transpose twice, A-B == (B-A)*-1, A+B == B+A. "
           "Every vector case also runs each scalar operator (compound and plain) with the operand being a reference to component j "
           "of the left-hand vector itself (v op= v.x ...; expected value from a copy of the operand taken before the call) and "
           "v += v / v -= v; every integer-matrix case runs the entrywise scalar operators +,-,*,/,% and their compound forms with an "
@@ -17,9 +28,12 @@ PROP = dict(
           "(normal return - an exception is the clause random-data-threw -, guard bytes, no untouched run, size). "
           "Non-trivial: gcd pairs with gcd>1 and both operands>1; "
           "log2i arguments adjacent to a power of two; random_int ranges wider than one value; random_data sequences of >=3 calls or "
-          ">4096 bytes; random_data_sig cases in which at least one signal was delivered; vector pairs that are distinct and non-zero; "
+          ">4096 bytes; random_data_sig cases in which at least one signal was delivered; vector pairs that are distinct and non-zero, or (double) equal as values but different in the sign of a zero; "
           "matrices other than the identity. Distinct = distinct case encodings (hash)."),
-    assumptions=["non-negative operands for gcd/reduce_fraction", "random_int ranges with hi-lo < 2^63",
+    assumptions=["non-negative operands for gcd/reduce_fraction",
+                 "floating-point vectors / matrices: operands contain no NaN (the strict weak order of the property does not cover it) and only values "
+                 "whose sums and products are exact in double; results are compared by value (the sign of a zero result is not asserted), two NaN "
+                 "results count as equal; == on floating-point components is the IEEE ==", "random_int ranges with hi-lo < 2^63",
                  "integer matrices with entries in [-9,9] so that the double accumulation in Matrix4::operator* is exact",
                  "random_data non-constancy tests have a false-alarm probability below 2^-120 per case",
                  "diagonally dominant double matrices are kept within global scales 2^-900..2^900 so that neither M nor inverse(M) leaves the normal double range",
